@@ -252,7 +252,7 @@ def shard(seed, n, tier):
 
 def main(tier, seed, cases=None):
     t0 = time.time()
-    shards, n = (8, 6) if tier == 'quick' else (16, 150)
+    shards, n = (8, 12) if tier == "quick" else (16, 150)
     if cases:
         n = cases
     kws = [dict(seed=seed * 1000 + i, n=n, tier=tier) for i in range(shards)]
